@@ -11,7 +11,7 @@ cd harness
 fail=0
 for d in cmd/*/; do
   n=$(basename "$d")
-  if ! go build -tags verif -o bin/$n ./cmd/$n; then
+  if ! go build -trimpath -tags verif -o bin/$n ./cmd/$n; then
     echo "setup: warning: $n does not build" >&2
     fail=1
   fi
@@ -19,7 +19,7 @@ done
 # race-enabled builds (C13) - warms the race runtime / stdlib cache
 for n in vh-race; do
   if [ -d cmd/$n ]; then
-    go build -race -tags verif -o bin/$n-race ./cmd/$n || echo "setup: warning: $n (race) does not build" >&2
+    go build -trimpath -race -tags verif -o bin/$n-race ./cmd/$n || echo "setup: warning: $n (race) does not build" >&2
   fi
 done
 echo "setup ok"
